@@ -39,7 +39,7 @@ RULE = (
     "Distinct = sha1(case)."
 )
 ASSUMPTIONS = [
-    "python backend only (cotengrust absent); parallel=False (documented: determinism only within one parallel setting)",
+    "python backend only (cotengrust absent); parallel=False, or (forest / tempering) a harness pool that runs each task at submit time and returns genuine, already completed concurrent.futures.Future objects",
 ]
 
 TREE_APIS = ["slice", "slicefinder", "reconf", "reconf_forest", "anneal", "temper", "unslice_rand", "get_subtree"]
@@ -70,15 +70,15 @@ def case(draw):
             k = draw(st.integers(2 if api == "unslice_rand" else 0, 3))
             c["pre_slice"] = draw(st.lists(st.sampled_from(labels), min_size=min(k, len(labels)), max_size=min(k, len(labels)), unique=True)) if labels else []
         if api in ("slice", "slicefinder"):
-            c["args"] = {"div": draw(st.sampled_from([2, 4, 8])), "temp": draw(st.sampled_from([0.01, 0.5, 2.0])), "reps": draw(st.integers(1, 6))}
+            c["args"] = {"div": draw(st.sampled_from([2, 4, 8])), "temp": draw(st.sampled_from([0.01, 0.5, 2.0])), "reps": draw(st.integers(1, 6)), "allow_outer": draw(st.sampled_from([True, True, False, "only"]))}
         elif api == "reconf":
             c["args"] = {"size": draw(st.integers(2, 6)), "search": draw(st.sampled_from(["random", "random", "bfs"])), "select": draw(st.sampled_from(["random", "random", "max"])), "maxiter": draw(st.integers(1, 6))}
         elif api == "reconf_forest":
-            c["args"] = {"num_trees": draw(st.integers(2, 3)), "restarts": draw(st.integers(1, 2)), "maxiter": draw(st.integers(1, 3)), "size": draw(st.integers(2, 5))}
+            c["args"] = {"num_trees": draw(st.integers(2, 3)), "restarts": draw(st.integers(1, 2)), "maxiter": draw(st.integers(1, 3)), "size": draw(st.integers(2, 5)), "pool": draw(st.sampled_from(["none", "none", "eager"]))}
         elif api == "anneal":
             c["args"] = {"tsteps": draw(st.integers(1, 3)), "numiter": draw(st.integers(1, 3)), "div": draw(st.sampled_from([0, 2, 4])), "slice_mode": draw(st.sampled_from(["basic", "reslice", "drift"]))}
         elif api == "temper":
-            c["args"] = {"tsteps": draw(st.integers(1, 2)), "numiter": draw(st.integers(1, 2)), "num_trees": draw(st.integers(2, 3)), "div": draw(st.sampled_from([0, 2]))}
+            c["args"] = {"tsteps": draw(st.integers(1, 2)), "numiter": draw(st.integers(1, 2)), "num_trees": draw(st.integers(2, 3)), "div": draw(st.sampled_from([0, 2])), "pool": draw(st.sampled_from(["none", "none", "eager"]))}
         elif api == "get_subtree":
             c["args"] = {"size": draw(st.integers(2, 8))}
     elif api in NET_APIS:
